@@ -269,6 +269,8 @@ def shard_main(mod, tier, seed, shard, n, out, budget_s):
 
 def run_check(prop_id, tier, seed, replay=None, shard=None, out=None, cases=None):
     t_start = time.time()
+    if replay:
+        replay = os.path.abspath(replay)  # the sandbox changes the working directory
     os.environ["VERIF_TIER"] = tier
     sandbox.setup()
     mod = importlib.import_module("vlib.props.%s" % prop_id.lower())
@@ -295,9 +297,9 @@ def run_check(prop_id, tier, seed, replay=None, shard=None, out=None, cases=None
         for sig, msg in res.failures:
             print("FAIL %s: %s" % (sig, msg))
         if res.failures:
-            print("VIOLATION property=%s replay=%s" % (prop_id, replay))
+            print("VIOLATION property=%s replay=%s" % (prop_id, os.path.relpath(replay, VERIF_DIR)))
             return 1
-        print("PASS property=%s replay=%s checks=%d" % (prop_id, replay, res.checks))
+        print("PASS property=%s replay=%s checks=%d" % (prop_id, os.path.relpath(replay, VERIF_DIR), res.checks))
         return 0
 
     stats = Stats()
